@@ -97,7 +97,6 @@ func c06Validator(p *Prog, c *Check, fl sigFlavour, accept string) {
 		used, miss := requireAtoms(facts, b,
 			"len($e.SignerIndices) == $ks.Threshold",
 			"len($e."+fl.sigField+") == len($e.SignerIndices)",
-			"validateSignerIndices($e, len($ks.Keypers))#0 == "+accept,
 			"GetSubset($ks, $e.SignerIndices)#1 == nil",
 			ctorPat+"#1 == nil",
 		)
@@ -105,45 +104,31 @@ func c06Validator(p *Prog, c *Check, fl sigFlavour, accept string) {
 			c.Fail(rule, key, site, shortFn(fn), "Accept return", "an Accept-compatible return is not dominated by a fact matching `"+miss+"`", atomStrings(facts)...)
 			continue
 		}
-		// identities: in-order map over $k.Keys
+		// identities: in-order map over $k.Keys (possibly built by a helper)
 		ids := b["ids"]
 		okIDs := false
-		if ids != nil && ids.Val != nil {
-			if mo := fi.asMapOver(p, ids.Val); mo != nil && len(mo.Elems) == 1 && mo.Loop.Lo == 0 {
-				mb := Binds{"k": b["k"], "j": mo.Loop.Idx}
-				if ParsePat("len($k.Keys)").Match(mo.Loop.Bound, mb) && ParsePat("$k.Keys[$j].IdentityPreimage").Match(mo.Elems[0], mb) {
-					okIDs = true
-				}
+		if mv := fi.mapViewOf(p, ids, 0); mv != nil {
+			mb := Binds{"k": b["k"], "j": mv.Idx}
+			if ParsePat("len($k.Keys)").Match(mv.Bound, mb) && ParsePat("$k.Keys[$j].IdentityPreimage").Match(mv.Elem, mb) {
+				okIDs = true
 			}
 		}
 		if !okIDs {
 			c.Fail(rule, key+":identities", site, shortFn(fn), "signed identity list", "the identity list passed to "+fl.ctor+" is not `for j := range keys.Keys: append(keys.Keys[j].IdentityPreimage)` over the validated message")
 			continue
 		}
-		// signature loop
-		var loop *Loop
-		for _, l := range loopsOf(p, fn) {
-			if l.Idx == nil || l.Lo != 0 {
-				continue
-			}
-			lb := copyBinds(b)
-			if ParsePat("len($e."+fl.sigField+")").Match(l.Bound, lb) && l.Header.Dominates(r.Block()) && !l.Blocks[r.Block()] {
-				loop = l
-			}
-		}
-		if loop == nil {
-			c.Fail(rule, key+":sigloop", site, shortFn(fn), "signature loop", "no counted/range loop over all of "+fl.sigField+" (index from 0 to len) dominates the Accept return")
-			continue
-		}
-		if !fi.onlyByExhaustion(loop, r.Block()) {
-			c.Fail(rule, key+":sigloop-exit", site, shortFn(fn), "signature loop", "the Accept return is reachable from inside the signature loop by an early exit, not only by exhausting it")
-			continue
-		}
+		// signature loop (in the validator or in a helper whose success the Accept depends on)
 		want := ParseAtomPat("CheckSignature(" + ctorPat + "#0, $e." + fl.sigField + "[$i], GetSubset($ks, $e.SignerIndices)#0[$i])#0 == true")
-		ib := copyBinds(b)
-		ib["i"] = loop.Idx
-		if !fi.everyIteration(loop, func(a Atom) bool { return want.Match(a, copyBinds(ib)) }) {
-			c.Fail(rule, key+":sigcheck", site, shortFn(fn), "signature loop body", "some path through an iteration of the signature loop does not pass the success edge of `"+want.src+"` with i the loop index")
+		okLoop := p.forallBefore(fn, r, acceptConds(accept), nil, 0, func(lc loopCtx) bool {
+			lb := copyBinds(b)
+			if !ParsePat("len($e." + fl.sigField + ")").Match(lc.bound(), lb) {
+				return false
+			}
+			lb["i"] = lc.loop.Idx
+			return lc.everyIteration(func(a Atom) bool { return want.Match(a, copyBinds(lb)) })
+		})
+		if !okLoop {
+			c.Fail(rule, key+":sigcheck", site, shortFn(fn), "signature loop", "Accept is not reached by exhausting a loop over all of "+fl.sigField+" in which every iteration passes the success edge of `"+want.src+"` with i the loop index")
 			continue
 		}
 		c.Ok(rule, key, site, shortFn(fn), "Accept return", append(used, "FORALL i<len("+fl.sigField+"): "+want.src, "identities = map(keys.Keys, .IdentityPreimage)")...)
@@ -151,56 +136,62 @@ func c06Validator(p *Prog, c *Check, fl sigFlavour, accept string) {
 	c.Floor(rule, nAccept, 1)
 }
 
-// strictlyIncreasingInRange checks validateSignerIndices.
+// c06SignerIndices: before Accept, a loop over all signer indices established in-range and strictly
+// increasing — found from the exported validator's Accept returns, whatever the helper is called.
 func c06SignerIndices(p *Prog, c *Check, fl sigFlavour, accept string) {
 	rule := "C06-R1b." + fl.name
-	fn, err := p.Func(fl.pkg + ".validateSignerIndices")
+	fn, err := p.Func(fl.pkg + ".ValidateDecryptionKeysSignatures")
 	if !c.Must(err) {
 		return
 	}
-	c.Analysed(shortFn(fn))
 	fi := p.Info(fn)
 	n := 0
 	for _, r := range returnsOf(fn) {
 		if fi.retCompatible(r, acceptConds(accept)) == no {
 			continue
 		}
-		n++
-		key := shortFn(fn) + ":accept#" + fmt.Sprint(n)
-		site := p.siteOf(r)
-		b := Binds{"e": fi.T(fn.Params[0]), "n": fi.T(fn.Params[1])}
-		var loop *Loop
-		for _, l := range loopsOf(p, fn) {
-			if l.Idx != nil && l.Lo == 0 && ParsePat("len($e.SignerIndices)").Match(l.Bound, copyBinds(b)) && l.Header.Dominates(r.Block()) && !l.Blocks[r.Block()] {
-				loop = l
+		facts := fi.FactsWithImports(r)
+		b := Binds{"k": fi.T(fn.Params[0]), "e": fi.T(fn.Params[1]), "ks": fi.T(fn.Params[2])}
+		if fl.allowEmpty {
+			if _, miss := requireAtoms(facts, copyBinds(b), "len($e.SignerIndices) == 0", "len($e."+fl.sigField+") == 0"); miss == "" {
+				continue
 			}
 		}
-		if loop == nil {
-			c.Fail(rule, key, site, shortFn(fn), "Accept return", "not preceded by a loop over all signer indices")
-			continue
-		}
-		if !fi.onlyByExhaustion(loop, r.Block()) {
-			c.Fail(rule, key, site, shortFn(fn), "Accept return", "reachable by an early exit from the signer index loop")
-			continue
-		}
-		b["i"] = loop.Idx
-		m := func(pat string) func(Atom) bool {
-			ap := ParseAtomPat(pat)
-			return func(a Atom) bool { return ap.Match(a, copyBinds(b)) }
-		}
-		first := anyOf(m("$i < 1"), m("$i <= 0"), m("$i == 0"))
-		inRange := fi.everyIteration(loop, m("$e.SignerIndices[$i] < $n"))
-		lt := fi.everyIteration(loop, anyOf(first, m("$e.SignerIndices[($i - 1)] < $e.SignerIndices[$i]")))
-		ne := fi.everyIteration(loop, anyOf(first, m("$e.SignerIndices[$i] != $e.SignerIndices[($i - 1)]")))
-		le := fi.everyIteration(loop, anyOf(first, m("$e.SignerIndices[($i - 1)] <= $e.SignerIndices[$i]")))
-		switch {
-		case !inRange:
-			c.Fail(rule, key, site, shortFn(fn), "Accept return", "some iteration path does not establish SignerIndices[i] < n")
-		case !(lt || (ne && le)):
-			c.Fail(rule, key, site, shortFn(fn), "Accept return", "some iteration path with i ≥ 1 does not establish SignerIndices[i-1] < SignerIndices[i] (strictly increasing, hence distinct)")
-		default:
-			c.Ok(rule, key, site, shortFn(fn), "Accept return", "FORALL i: SignerIndices[i] < n", "FORALL i≥1: SignerIndices[i-1] < SignerIndices[i]")
-		}
+		n++
+		key := shortFn(fn) + ":signer-indices#" + fmt.Sprint(n)
+		site := p.siteOf(r)
+		why := "Accept is not preceded by a loop over all signer indices"
+		ok := p.forallBefore(fn, r, acceptConds(accept), nil, 0, func(lc loopCtx) bool {
+			lb := copyBinds(b)
+			if !ParsePat("len($e.SignerIndices)").Match(lc.bound(), lb) {
+				return false
+			}
+			lb["i"] = lc.loop.Idx
+			m := func(pat string) func(Atom) bool {
+				ap := ParseAtomPat(pat)
+				return func(a Atom) bool { return ap.Match(a, copyBinds(lb)) }
+			}
+			first := anyOf(m("$i < 1"), m("$i <= 0"), m("$i == 0"))
+			inRange := lc.everyIteration(m("$e.SignerIndices[$i] < len($ks.Keypers)"))
+			lt := lc.everyIteration(anyOf(first, m("$e.SignerIndices[($i - 1)] < $e.SignerIndices[$i]")))
+			ne := lc.everyIteration(anyOf(first, m("$e.SignerIndices[$i] != $e.SignerIndices[($i - 1)]")))
+			le := lc.everyIteration(anyOf(first, m("$e.SignerIndices[($i - 1)] <= $e.SignerIndices[$i]")))
+			// a loop over the indices that checks nothing of this kind is some other loop (e.g. GetSubset's)
+			if !inRange && !lt && !ne && !le {
+				return false
+			}
+			switch {
+			case !inRange:
+				why = "some iteration path does not establish SignerIndices[i] < len(keyperSet.Keypers)"
+			case !(lt || (ne && le)):
+				why = "some iteration path with i ≥ 1 does not establish SignerIndices[i-1] < SignerIndices[i] (strictly increasing, hence distinct)"
+			default:
+				c.Analysed(shortFn(lc.fi.Fn))
+				return true
+			}
+			return false
+		})
+		c.Result(ok, rule, key, site, shortFn(fn), "Accept return", why, "FORALL i: SignerIndices[i] < n", "FORALL i≥1: SignerIndices[i-1] < SignerIndices[i]")
 	}
 	c.Floor(rule, n, 1)
 }
@@ -405,15 +396,13 @@ func c06Callers(p *Prog, c *Check, accept string) {
 			continue
 		}
 		c.Analysed(shortFn(fn))
-		fi := p.Info(fn)
-		for _, r := range returnsOf(fn) {
-			for pi, pf := range fi.pathFactSets(r.Block()) {
-				if fi.retCompatibleF(r, acceptConds(accept), pf) == no {
-					continue
-				}
+		_ = p.Info(fn)
+		for _, ap := range acceptPaths(p, fn, accept) {
+			{
+				r := ap.r
 				n++
-				facts := fi.withImports(pf)
-				key := fmt.Sprintf("%s:accept@%s/%d", shortFn(fn), retKey(fi, r), pi)
+				facts := ap.facts
+				key := ap.key
 				b := Binds{}
 				used, miss := requireAtoms(facts, b, "ValidateDecryptionKeysSignatures($m, $x, $ks)#0 == "+accept)
 				if miss != "" {
